@@ -460,6 +460,47 @@ pub async fn run(out: &mut Out) {
         out.stat("id_wrap_run");
     }
 
+    // ---- D'. the sender alone over a grid of sizes: every small MTU x every length around the 127- and 255/256-fragment
+    // limits (an oversize frame is refused, never truncated), and the largest frames at the MTUs a transport reports
+    {
+        let mut s = new_sess(out, HUGE);
+        for mtu in 5usize..=9 {
+            let size = mtu - 4;
+            let mut lens: Vec<usize> = (0..=(if thorough { 1400 } else { 700 })).collect();
+            for k in [127usize, 128, 255, 256, 257, 383, 384, 511, 512, 513] {
+                for d in [0usize, 1] {
+                    lens.push(k * size + d);
+                    lens.push((k * size).saturating_sub(1));
+                }
+            }
+            lens.extend([65535usize, 65536, 65547]);
+            lens.sort();
+            lens.dedup();
+            for len in lens {
+                let buf: Vec<u8> = (0..len).map(|i| (i * 7 + mtu) as u8).collect();
+                let r = op_make(out, &mut s, mtu, &buf);
+                out.stat("make_size_grid");
+                // independent of the model: refused iff more than 127 fragments would be needed
+                let need = (len + size - 1) / size; // an empty buffer yields no fragment (a serialized frame is never empty: 12-byte header)
+                match r {
+                    Some(v) if need > 127 && !v.is_empty() => out.oracle_fail("oversize-not-refused", &format!("mtu {} len {}: {} fragments needed, {} produced", mtu, len, need, v.len())),
+                    Some(v) if need <= 127 && v.len() != need => out.oracle_fail("make-count", &format!("mtu {} len {}: {} fragments needed, {} produced", mtu, len, need, v.len())),
+                    _ => {}
+                }
+            }
+        }
+        for mtu in [64usize, 521, 1200, 1452, 65535] {
+            for len in [127 * (mtu - 4) - 1, 127 * (mtu - 4), 127 * (mtu - 4) + 1, 256 * (mtu - 4) + 1] {
+                if len > 70000 {
+                    continue;
+                }
+                let buf: Vec<u8> = (0..len).map(|i| (i * 13) as u8).collect();
+                let _ = op_make(out, &mut s, mtu, &buf);
+                out.stat("make_size_grid");
+            }
+        }
+    }
+
     // ---- E. never-completed frames are discarded by the timer, and a later frame that reuses the id is not disturbed
     // (real clock: timeout 200 ms; fragments of frame A at 0 and ~100 ms, timer at ~400 ms, then frame B under A's id)
     for (na, nb, gap) in [(3usize, 2usize, 100u64), (4, 3, 150), (2, 5, 0), (3, 3, 100)] {
